@@ -26,7 +26,9 @@ Targets == {"file-inside", "dir-inside", "file-outside", "dir-outside", "ancesto
 \* GarbageCollect: everything (the link too) is older than the threshold; GarbageCollectAged: every file and directory, inside
 \* and outside, is older than the threshold but the link itself is fresh - it stays, and what it points to is not collected
 \* RmLinkTrailing: Rm on the link written with a trailing separator ("link/"), which makes the operating system resolve it
-Ops == {"Rm", "RmLink", "RmLinkTrailing", "CleanDir", "GarbageCollect", "GarbageCollectAged", "RmExcluding", "CleanDirExcluding"}
+\* RmPrivileged: RemoveWithPrivileges whose first removal is refused once by the backend (permission denied): the call takes
+\* ownership and tries again - the outcome is that of Rm, and nothing outside the tree is touched (not its ownership either)
+Ops == {"Rm", "RmPrivileged", "RmLink", "RmLinkTrailing", "CleanDir", "GarbageCollect", "GarbageCollectAged", "RmExcluding", "CleanDirExcluding"}
 Patterns == {"f", "d", "l", "sub"}
 
 VARIABLES present,   \* set of optional inside nodes that exist
